@@ -726,6 +726,13 @@ class Deriver:
         out = nv.NameValueCollection()
         for _ in range(n):
             out.append(self.gen(nv.NV_SERIALIZER, ctx, tuple(avoid) + (b"\n",)))
+        # the same pair said twice is still a list of two (or three) entries: one collection in three repeats its first entry at
+        # the end (decided from the content, so the random stream is the same with and without this)
+        import copy as _copy
+        import zlib as _zlib
+        if _zlib.crc32(repr([str(x) for x in out]).encode("utf8", "replace")) % 3 == 0:
+            out.append(_copy.deepcopy(out[0]))
+            STATS["namevalue_collections_repeating_their_first_entry"] = STATS.get("namevalue_collections_repeating_their_first_entry", 0) + 1
         return out
 
     def g_Adapter(self, spec, ctx, avoid):
